@@ -1,11 +1,118 @@
 import TdVerif.Sexp
+import TdVerif.Model.C05Lock
+import TdVerif.Gen.LockTable
 
 namespace TdVerif.Drive
-open TdVerif Sexp
+open TdVerif Sexp TdVerif.C05
 
-/-- line-protocol handler for C05: commands are named `c05.<something>` -/
+namespace C05D
+
+def strs? (l : List Sexp) : Option (List String) := l.mapM asAtom?
+
+def eff? : Sexp → Option Eff
+  | .list [.atom "addleaf", .atom k, o] => do pure (.addLeaf k (← asNat? o))
+  | .list [.atom "addkid", .atom k, j] => do pure (.addKid k (← asNat? j))
+  | .list [.atom "del", .atom k] => some (.del k)
+  | .list [.atom "rename", .atom k, .atom k'] => some (.rename k k')
+  | .list (.atom "keep" :: ks) => do pure (.keep (← strs? ks))
+  | .list (.atom "drop" :: ks) => do pure (.drop (← strs? ks))
+  | .list [.atom "clear"] => some .clear
+  | .list [.atom "write", .atom k] => some (.write k)
+  | _ => none
+
+def bool? : Sexp → Option Bool
+  | .atom "true" => some true
+  | .atom "false" => some false
+  | _ => none
+
+/-- guard of a public mutator, looked up in the table regenerated from the source -/
+def guardOf (cls meth : String) : Option Guard :=
+  (Gen.LockTable.api.find? (fun a => a.cls == cls && a.meth == meth)).map (·.guard)
+
+def kid? : Sexp → Option (String × Nat)
+  | .list [.atom k, j] => do pure (k, ← asNat? j)
+  | _ => none
+
+def leaf? : Sexp → Option (String × Nat × Nat)
+  | .list [.atom k, o, v] => do pure (k, ← asNat? o, ← asNat? v)
+  | _ => none
+
+def ev? : Sexp → Option Ev
+  | .list [.atom "lock", i] => do pure (.lock (← asNat? i))
+  | .list [.atom "unlock", i] => do pure (.unlock (← asNat? i))
+  | .list [.atom "ctor", .list ks, .list ls, b] => do pure (.viaCtor (← ks.mapM kid?) (← ls.mapM leaf?) (← bool? b))
+  | .list [.atom "lazy", .list ms, b] => do pure (.lazyOver (← nats? ms) (← bool? b))
+  | .list [.atom "share", i] => do pure (.viaShare (← asNat? i))
+  | .list [.atom "memmap", i] => do pure (.viaMemmap (← asNat? i))
+  | .list [.atom "gc", i] => do pure (.gcDrop (← asNat? i))
+  | .list [.atom "mut", i, .atom cls, .atom meth, bp, e] => do
+      pure (.mut (← asNat? i) ⟨← guardOf cls meth, ← bool? bp, ← eff? e⟩)
+  | .list [.atom "withlock", i] => do pure (.withLock (← asNat? i))
+  | .list [.atom "withunlock", i] => do pure (.withUnlock (← asNat? i))
+  | .list [.atom "exit"] => some .exitCtx
+  | _ => none
+
+def outAtom : Out → String
+  | .ok => "ok"
+  | .okNoop => "ok"
+  | .errLock => "lock"
+  | .errKey => "key"
+  | .errOther => "other"
+
+def insertSorted (x : Nat) : List Nat → List Nat
+  | [] => [x]
+  | y :: ys => if x ≤ y then x :: y :: ys else y :: insertSorted x ys
+def sortNat (l : List Nat) : List Nat := l.foldr insertSorted []
+def dedupSorted : List Nat → List Nat
+  | [] => []
+  | [x] => [x]
+  | x :: y :: r => if x = y then dedupSorted (y :: r) else x :: dedupSorted (y :: r)
+
+def insertSortedS (x : String × Sexp) : List (String × Sexp) → List (String × Sexp)
+  | [] => [x]
+  | y :: ys => if x.1 ≤ y.1 then x :: y :: ys else y :: insertSortedS x ys
+
+/-- canonical view of the whole heap: per live node its `is_locked`, raw flag, the *live* lock parents (sorted set)
+and the storage dict (sorted by key) -/
+def view (h : Heap) : Sexp :=
+  .list ((List.range h.size).map (fun i =>
+    let n := h.node i
+    if !n.alive then Sexp.atom "dead" else
+    let flag := match n.flag with | some true => "t" | some false => "f" | none => "n"
+    let ps := dedupSorted (sortNat ((parentsOf h i).filter (fun p => live h p)))
+    let entries : List (String × Sexp) :=
+      n.kids.map (fun e => (e.1, Sexp.list [.atom e.1, .atom "n", ofNat e.2])) ++
+      n.leaves.map (fun e => (e.1, Sexp.list [.atom e.1, .atom "l", ofNat e.2.1, ofNat e.2.2]))
+    Sexp.list [ofNat i, .atom (if isLocked h i then "L" else "U"), .atom flag, ofNats ps,
+      .list ((entries.foldr insertSortedS []).map (·.2))]))
+
+partial def runEvents (s : State) : List Sexp → List Sexp → Option (List Sexp)
+  | [], acc => some acc.reverse
+  | e :: rest, acc => do
+      let ev ← ev? e
+      let r := step s ev
+      runEvents r.1 rest (Sexp.list [.atom (outAtom r.2), view r.1.heap] :: acc)
+
+def klassAtom : Gen.LockTable.Klass → String
+  | .structural => "structural"
+  | .writer => "writer"
+  | .exempt => "exempt"
+  | .lockapi => "lockapi"
+  | .frame => "frame"
+  | .unknown => "unknown"
+
+end C05D
+
+open C05D in
+/-- line-protocol handler for C05 -/
 def handleC05 (cmd : String) (args : List Sexp) : Option Sexp :=
   match cmd, args with
+  | "c05.run", evs => do pure (.list (← runEvents { heap := Heap.empty } evs []))
+  | "c05.predict", [.atom cls, .atom meth] =>
+      match Gen.LockTable.api.find? (fun a => a.cls == cls && a.meth == meth) with
+      | some a => some (.list [.atom (klassAtom a.klass), .atom (toString (a.guard.blocks false)),
+                               .atom (toString (a.guard.blocks true)), .atom (toString a.kw)])
+      | none => some (.atom "absent")
   | _, _ => none
 
 end TdVerif.Drive
